@@ -2206,4 +2206,38 @@ theorem closer_acts {t : Table} (ht : TInv t) (now : Nat) (h : ∃ uid i, Droppe
   obtain ⟨uid, i, hd⟩ := h
   exact this uid i hd
 
+/-! ## node-level readings -/
+
+theorem sweepOrphan_node {n : Node} {r : Held} (hrx : n.rx = some r)
+    (hw : (n.t.sweepOrphan r.m.port r.m.sid r.m.hdr n.now).2 = true) :
+    (sweepOrphan n).2 = .swept true ∧ (sweepOrphan n).1.rx = none := by
+  unfold sweepOrphan
+  simp [hrx, hw]
+
+theorem sweepAccept_node {n : Node} {r : Held} (hrx : n.rx = some r)
+    (hw : (n.t.sweepAccept r.m.port r.m.sid r.m.hdr n.now).2 = true) :
+    (sweepAccept n).2 = .swept true ∧ (sweepAccept n).1.rx = none := by
+  unfold sweepAccept
+  simp [hrx, hw]
+
+theorem ownerOf_eq {t : Table} (ht : TInv t) {s : Sess} (hs : s ∈ t.sessions) {m : Msg}
+    (hf : s.isForRx m.port m.sid = true) : ownerOf t m = (s.getExchForRx m.hdr).map (fun i => (s.uid, i)) := by
+  unfold ownerOf
+  rw [find_isForRx ht hs hf]
+
+theorem ownerOf_none {t : Table} {m : Msg} (hn : ∀ s ∈ t.sessions, s.isForRx m.port m.sid = false) :
+    ownerOf t m = none := by
+  unfold ownerOf
+  have : t.sessions.find? (fun s => s.isForRx m.port m.sid) = none := by
+    rw [List.find?_eq_none]; intro s hs; simp [hn s hs]
+  rw [this]
+
+instance admissibleDec : (n : Node) → (ops : List Op) → Decidable (Admissible n ops)
+  | _, [] => isTrue trivial
+  | n, op :: rest =>
+    match Nat.decLt n.t.nextUid 0x0fffffff, admissibleDec (step n op).1 rest with
+    | isTrue h1, isTrue h2 => isTrue ⟨h1, h2⟩
+    | isFalse h1, _ => isFalse (fun h => h1 h.1)
+    | _, isFalse h2 => isFalse (fun h => h2 h.2)
+
 end RxPath
